@@ -16,6 +16,11 @@ CHECKS = {
         text='Exploration with CPython itself as the reference model. The same generated source is executed statement by statement by the interpreter (TypeError = inconsistent hierarchy) and analysed by pydoctor; linearisation, inconsistency reports (recorded through a System.msg monitor), member lookup, inherited docstrings, inherited-member tables and "overrides" notes are compared for every class. The space the property names (every ordered choice of bases, <=5 classes) is enumerated completely; n=6 and multi-module/generic hierarchies are sampled.',
         note='Trusts CPython 3.12 type() and the generated member layout; classes that CPython cannot build because an earlier class was refused are not judged; explicit typing.Generic[T] bases are generated only where typing does not rewrite the bases at run time.',
         ref='4/C05'),
+    'C14': dict(
+        technique='reference-model monitor: text of the real pages.format_signature is parsed back by CPython as "def f<text>: pass" and compared parameter by parameter with the source AST; exhaustive over parameter layouts; Function.signature structure checked alongside',
+        text='Exploration with CPython\'s parser as reader of the displayed signature. Modules of generated definitions (functions, methods, async, overload sets) are analysed by pydoctor; every displayed signature is flattened to text, wrapped as a def and parsed; parameter names, order, kinds, separators, default placement, default/annotation expressions (string annotations unquoted, -> None omitted) and the per-overload signatures are compared with the source. All layouts of <=3 (quick) / <=4 (thorough) parameters are enumerated; longer signatures with generated expressions are sampled.',
+        note='Trusts ast.parse and vf/ref/exprnorm.py; expression defects already listed for C15 are attributed by the same localiser and listed as C14:expr:<mechanism>; defaults cut to one line (marked with the ellipsis) are counted, not judged.',
+        ref='4/C14'),
     'C15': dict(
         technique='reference-model monitor: text produced by the real colorize_pyval (block, inline and wrapped/truncated settings) is parsed back by CPython and compared with the source AST after documented-spelling normalisation; mechanism localisation by pattern rewriting',
         text='Exploration with CPython\'s parser as reader of the displayed text. Every depth-2 expression tree (form x hole x inner form), every depth-3 operator chain over all operand positions, every literal leaf kind, re.compile calls and random deeper trees are rendered by the real colouriser under unlimited, inline and small linelen/maxlines settings; complete outputs must read back as the same expression (wrap markers removed), incomplete ones must end in the ellipsis marker. A failing expression is attributed to a known mechanism only if rewriting that syntactic pattern away makes it pass and putting it back makes it fail; anything else is a new violation.',
